@@ -14,9 +14,9 @@ var nodeNames = []string{nodeSelf, "a", "b", "c", "node d", ""}
 // nodeProfile weights the op kinds of the random part of a generator.
 type nodeProfile struct {
 	nj, nl, nu, mj, ml, mg, fl, oj, lv, sd, rp, ls int
-	selfBias                                      int // extra weight (out of 10) of the local node as subject
-	pruneBias                                     int // probability (out of 10) that a leave is a prune
-	maxLen                                        int
+	selfBias                                       int // extra weight (out of 10) of the local node as subject
+	pruneBias                                      int // probability (out of 10) that a leave is a prune
+	maxLen                                         int
 }
 
 func (p nodeProfile) pick(rng *rand.Rand) string {
@@ -140,8 +140,25 @@ func nodeRandomOp(rng *rand.Rand, p nodeProfile) string {
 func nodeRandomCase(rng *rand.Rand, p nodeProfile, id string) Case {
 	k := 3 + rng.Intn(p.maxLen)
 	ops := make([]string, 0, k)
+	extreme := false
 	for j := 0; j < k; j++ {
-		ops = append(ops, nodeRandomOp(rng, p))
+		o := nodeRandomOp(rng, p)
+		if strings.Contains(o, "1844674407370955161") {
+			extreme = true
+		}
+		// Once the clock may sit at 2^64-1, the refuting goroutine started by a merge that lists the
+		// local node as left races with the rest of that merge, observably (only) through the wrapped
+		// clock (C19 finding): such a merge then carries nothing but the claim about the local node.
+		if f := strings.Fields(o); extreme && f[0] == "mg" && strings.Contains(","+f[3]+",", ","+hexs(nodeSelf)+",") {
+			st := "-"
+			for _, e := range strings.Split(f[2], ",") {
+				if strings.HasPrefix(e, hexs(nodeSelf)+":") {
+					st = e
+				}
+			}
+			o = fmt.Sprintf("mg %s %s %s", f[1], st, hexs(nodeSelf))
+		}
+		ops = append(ops, o)
 	}
 	return Case{ID: id, Ops: ops, Tags: []string{"random"}}
 }
